@@ -39,7 +39,8 @@ class SetEncoder(encoder.SetEncoder):
 
                 # the chosen alternative may be an untagged CHOICE again
                 return SetEncoder._componentSortKey(
-                    (component[names[0]], asn1Spec[names[0]]))
+                    (component[names[0]],
+                     asn1Spec.componentType[names[0]].asn1Object))
 
         else:
             return compType.tagSet
